@@ -18,6 +18,9 @@ MUST_OBSERVE = ["request_pairs", "row_pairs_compared", "variant_extra", "variant
 ASSUMPTIONS = ["rows are matched by distance to 1e-9 relative among rows carrying the RANGE flag; the terminal row of an "
                "incomplete trajectory and the flag-less 'second point' row are not range-card rows and are not compared"]
 REL = 1e-9
+# |d column / d distance| bounds per foot (time: v >= 50 ft/s; heights: slopes up to 89 deg; angles: curvature g/v^2 and drag)
+SLOPE = {"time": 0.02, "height": 60.0, "windage": 60.0, "speed": 50.0, "mach": 0.05, "angle": 0.05, "energy": 0.1,
+         "target_drop": 60.0, "drop_adj": 1.0}
 EVENT_BITS = TrajFlag.ZERO_UP | TrajFlag.ZERO_DOWN | TrajFlag.MACH | TrajFlag.APEX
 
 
@@ -82,9 +85,12 @@ def check_case(ctx, case):
         for i, j in pairs:
             fa, fb = fields(rows_a[i]), fields(rows_b[j])
             ctx.count("row_pairs_compared")
+            # the two requests reach "the same distance" through different chains of additions (k x step): the rows sit
+            # |dx| apart (1e-10 ft typical) and every column moves by its slope x |dx| - generous slope bounds per ft
+            dx = abs((rows_a[i].distance >> Distance.Foot) - (rows_b[j].distance >> Distance.Foot))
             for name in fa:
-                scale = max(abs(fa[name]), abs(fb[name]), 1e-6 if name in ("height", "windage", "target_drop", "drop_adj", "angle") else 0.0)
-                if not abs(fa[name] - fb[name]) <= REL * scale + 1e-300:
+                scale = max(abs(fa[name]), abs(fb[name]))
+                if not abs(fa[name] - fb[name]) <= REL * scale + SLOPE[name] * dx * max(1.0, scale if name == "energy" else 1.0) + 1e-300:
                     ctx.violation("row-differs." + var["kind"],
                                   f"row at {rows_a[i].distance >> Distance.Foot:.4f} ft: {name} = {fa[name]!r} under {base} but "
                                   f"{fb[name]!r} under {req}", c, field=name, a=fa[name], b=fb[name])
